@@ -67,6 +67,10 @@ class FailModel(engine.RealModel):
                 # a 3-D reference: the formula itself cannot be compiled, which fails
                 # while the graph is built, before any of its precedents is looked at
                 cells[b] = f"=SUM(Sheet1:Sheet3!A1)+({cells[b][1:]})"
+            elif b in init_broken and variant == 5:
+                # the value of the formula is a reference which cannot be resolved
+                # (a sheet which does not exist): fails after the formula returned
+                cells[b] = '=INDIRECT("Nope!"&"A1")'
             elif b in init_broken:
                 fn = ('NOSUCHFN', 'VFAIL', 'VRECURSE')[(i + variant) % 3]
                 cells[b] = f'={fn}({cells[b][1:]})'
@@ -220,7 +224,8 @@ def job(arg):
             if status == 'raise':
                 out['raised_seen'] += 1
                 ok_family = isinstance(got, (PyCelException, RecursionError)) or (
-                    variant in (3, 4) and isinstance(got, NotImplementedError))
+                    variant in (3, 4) and isinstance(got, NotImplementedError)) or (
+                    variant == 5 and isinstance(got, KeyError))
                 if mode == 'iterative' and ovr and not depends and ok_family and \
                         needs_broken(prec, n, broken, {}):
                     # DEV_IterOverrideIgnored: the overwritten cell is recomputed
@@ -363,7 +368,7 @@ def job(arg):
             out['violations'].append((
                 f'after {act["op"]}({act.get("n")}) transient state is not clean: {tr} '
                 f'[{name}/{src}/{mode}]', case))
-        if mode == 'plain' and variant not in (3, 4) and not drift:
+        if mode == 'plain' and variant not in (3, 4, 5) and not drift:
             proj = model.project()
             # which cells of an abandoned evaluation are "never known" rather than
             # "reset" depends on the path they were built on: not compared
@@ -397,7 +402,8 @@ def job(arg):
                     f'{got2!r} instead of raising (it depends on {init_broken}) '
                     f'[{name}/{src}/{mode}]', case))
             elif not isinstance(got2, (PyCelException, RecursionError)) and not (
-                    variant in (3, 4) and isinstance(got2, NotImplementedError)):
+                    variant in (3, 4) and isinstance(got2, NotImplementedError)) and not (
+                    variant == 5 and isinstance(got2, KeyError)):
                 out['violations'].append((
                     f'after a failing trim_graph, evaluate({node}) raised '
                     f'{type(got2).__name__} [{name}/{src}/{mode}]', case))
@@ -444,6 +450,9 @@ def run(tier, seed):
             ('nested', 'NoData', ['B2'], ['B2'], False, 'plain', P, ['A1'], 0, seed, 3),
             ('capture', 'NoData', ['B1'], ['B1'], False, 'plain', P, ['A2'], 0, seed, 4),
             ('trimex', 'NoData', ['C2'], ['C2'], False, 'plain', P, ['A1'], 0, seed, 4),
+            # the reference a formula returns cannot be resolved
+            ('chain', 'NoData', ['B1'], ['B1'], False, 'iterative', P, ['A1'], 0, seed, 5),
+            ('nested', 'NoData', ['B2'], ['B2'], False, 'plain', P, ['A1'], 0, seed, 5),
             # stored results, the build of the graph fails: bystander ranges
             ('trimex', 'Stored', ['C2'], ['C2'], False, 'plain', P, ['A1'], 0, seed, 4),
         ]
@@ -454,7 +463,7 @@ def run(tier, seed):
             ins = sorted(W.WORKBOOKS[name]['inputs'])[:1]
             for f in forms:
                 for mode in ('plain', 'iterative'):
-                    for variant in (0, 1, 2, 3, 4):
+                    for variant in (0, 1, 2, 3, 4, 5):
                         jobs.append((name, 'NoData', [f], [f], False, mode, P, ins, 0, seed, variant))
             jobs.append((name, 'NoData', forms[:2], [], True, 'plain', P, ins, 0, seed))
             jobs.append((name, 'NoData', forms[:2], [], True, 'iterative', P, ins, 0, seed))
